@@ -20,7 +20,8 @@ META = {
                   'every accessor form of every key of every live node is compared with the value TLC computed for that '
                   'state, so a stale cache, a walk that stops early or starts at the root, or a read that writes is seen '
                   'at the first state where it matters.',
-    'level_note': 'Bounded: 4 nodes / 3-4 steps exhaustively from 27 three-level chains and from an empty object, 6 nodes / '
+    'level_note': 'Bounded: 4 nodes exhaustively (all 27 three-level chains for 1 step, 7 of them for 2 steps, an empty object for 3 steps; '
+                  'the thorough tier: 5 nodes, all 27 chains for 2 steps, the empty object for 4 steps), 6 nodes / '
                   'depth 30-40 by simulation with sampled arguments. Keys x (ValueFromParentChain), y (contextual_attribute) '
                   'and z never mix placeholder flavours under one name; cascade overrides, ContextualObject.override(), '
                   'contextual defaults, pg.Ref and keys that collide with container method names are not generated. '
@@ -41,7 +42,7 @@ def _model_runs(thorough: bool):
   """Exhaustive TLC runs (in a worker thread, while the main thread replays simulations)."""
   w = max(2, tlc.DEFAULT_WORKERS // 2)
   res = {}
-  cfgs = ['G02_quick.cfg', 'G02_root.cfg', 'G02_cache_flush.cfg'] + (['G02_thorough.cfg', 'G02_root_thorough.cfg'] if thorough else [])
+  cfgs = ['G02_quick.cfg', 'G02_diag.cfg', 'G02_root.cfg', 'G02_cache_flush.cfg'] + (['G02_thorough.cfg', 'G02_root_thorough.cfg'] if thorough else [])
   for cfg in cfgs:
     res[cfg] = tlc.run('Inferred', cfg, timeout=1500, workers=w)
   for cfg in EXPECTED_REFUTATIONS:
